@@ -456,7 +456,11 @@ impl Lockfile {
 
         // breadth first search because root has top priority of name
         let mut dependencies_metadata = Vec::new();
-        for (name, dep) in &metadata.dependencies {
+        // iterate in name order: the iteration order of the HashMap differs from run to run and
+        // would otherwise decide which project gets which `name_<n>` suffix
+        let mut sorted_dependencies: Vec<_> = metadata.dependencies.iter().collect();
+        sorted_dependencies.sort_by(|a, b| a.0.cmp(b.0));
+        for (name, dep) in sorted_dependencies {
             let dependency = self.resolve_dependency(metadata, name, dep, root, root_metadata)?;
             let metadata = self.get_metadata(&dependency.source)?;
             let mut name = dependency.name.clone();
@@ -503,7 +507,9 @@ impl Lockfile {
             }
 
             let mut dependencies = Vec::new();
-            for (name, dep) in &metadata.dependencies {
+            let mut sorted_dependencies: Vec<_> = metadata.dependencies.iter().collect();
+            sorted_dependencies.sort_by(|a, b| a.0.cmp(b.0));
+            for (name, dep) in sorted_dependencies {
                 let dependency =
                     self.resolve_dependency(&metadata, name, dep, root, root_metadata)?;
                 // project local name is not required to check name_table
